@@ -70,7 +70,7 @@ theorem dis_cmd_shaped (info : Info) {bs : List BytesMem.Block} (rx : Str → Op
     (hcode : st.code = listingOf info d) (inp : Input) (cmd : Listing.Cmd)
     (hv : ValidCmd st.lines.lines.length cmd) :
     ActShaped info d (nextDeps d st cmd) [top]
-      (disAnswer top [] inp (Listing.step (paramsAt false info bs rx d).cops st cmd)) := by
+      (disAnswer top [] inp (Listing.step (paramsAt info bs rx d).cops st cmd)) := by
   obtain ⟨s, st', h, _, _, htr⟩ := step_tracks info hd st hinv hcode cmd hv
   show ActShaped info d (nextDeps d st cmd) [top] (disAnswer top [] inp (Listing.step (opsAt info d) st cmd))
   rw [h]
@@ -95,7 +95,7 @@ theorem addMode_stack (ui : UI ESt) (name : Str) (m : Mode ESt) (ui' : UI ESt) (
 
 theorem newEmu_ok (info : Info) {bs : List BytesMem.Block} (rx : Str → Option (String → Bool)) (d : Deps.Code)
     (code : Listing.Code) (ip : Nat) (e : EmuMode ESt)
-    (h : newEmu (paramsAt false info bs rx d).eops code ip = .ok e) :
+    (h : newEmu (paramsAt info bs rx d).eops code ip = .ok e) :
     e.view.code = code ∧ e.emu.code = codeViewOf d := by
   unfold newEmu at h
   simp only at h
@@ -109,7 +109,7 @@ theorem newEmu_ok (info : Info) {bs : List BytesMem.Block} (rx : Str → Option 
 theorem actEmulate_shaped (info : Info) {bs : List BytesMem.Block} (rx : Str → Option (String → Bool))
     (d : Deps.Code) (top : NamedMode ESt) (st : Listing.St) (hm : top.mode = .dis st)
     (hcode : st.code = listingOf info d) (inp : Input) :
-    ActShaped info d d [top] (actEmulate (paramsAt false info bs rx d) top [] st inp) := by
+    ActShaped info d d [top] (actEmulate (paramsAt info bs rx d) top [] st inp) := by
   have hsh : Shaped info d [top] := Shaped.dis ⟨st, hm, hcode⟩
   unfold actEmulate
   simp only
@@ -132,7 +132,7 @@ theorem actEmulate_shaped (info : Info) {bs : List BytesMem.Block} (rx : Str →
           | none => trivial
           | some ins =>
             simp only
-            cases h5 : newEmu (paramsAt false info bs rx d).eops st.code ins.addr with
+            cases h5 : newEmu (paramsAt info bs rx d).eops st.code ins.addr with
             | panic => trivial
             | err => exact hsh
             | ok e =>
@@ -149,11 +149,11 @@ theorem actEmulate_shaped (info : Info) {bs : List BytesMem.Block} (rx : Str →
 theorem actStep_shaped (info : Info) {bs : List BytesMem.Block} (rx : Str → Option (String → Bool))
     (d : Deps.Code) (top nd : NamedMode ESt) (e : EmuMode ESt) (hg : EGood e.emu)
     (hv : e.view.code = listingOf info d) (hc : e.emu.code = codeViewOf d) (hnd : DisOK info d nd) (inp : Input) :
-    ActShaped info d d [top, nd] (actStep (paramsAt false info bs rx d) top [nd] e inp) := by
+    ActShaped info d d [top, nd] (actStep (paramsAt info bs rx d) top [nd] e inp) := by
   have ht := runTree_safe (stepTree_safe' e.emu hg stepFuel []) inp
   unfold actStep
-  rw [show (paramsAt false info bs rx d).eops.step e.emu = stepTree false e.emu stepFuel [] from rfl]
-  cases hr : runTree (stepTree false e.emu stepFuel []) inp with
+  rw [show (paramsAt info bs rx d).eops.step e.emu = stepTree e.emu stepFuel [] from rfl]
+  cases hr : runTree (stepTree e.emu stepFuel []) inp with
   | panic => trivial
   | hang => trivial
   | fail s rest =>
@@ -162,7 +162,7 @@ theorem actStep_shaped (info : Info) {bs : List BytesMem.Block} (rx : Str → Op
   | done s rest =>
     rw [hr] at ht
     simp only
-    cases hrc : refreshCursor (paramsAt false info bs rx d).eops e.view s with
+    cases hrc : refreshCursor (paramsAt info bs rx d).eops e.view s with
     | panic => trivial
     | err => exact Shaped.emu ⟨{ e with emu := s }, rfl, hv, ht.1.2.trans hc⟩ hnd
     | ok view =>
@@ -171,16 +171,16 @@ theorem actStep_shaped (info : Info) {bs : List BytesMem.Block} (rx : Str → Op
 theorem actMemory_shaped (info : Info) {bs : List BytesMem.Block} (rx : Str → Option (String → Bool))
     (d : Deps.Code) (top nd : NamedMode ESt) (e : EmuMode ESt) (htop : EmuOK info d top) (hnd : DisOK info d nd)
     (key : Str) (inp : Input) :
-    ActShaped info d d [top, nd] (actMemory (paramsAt false info bs rx d) top [nd] e key inp) := by
+    ActShaped info d d [top, nd] (actMemory (paramsAt info bs rx d) top [nd] e key inp) := by
   have hsh : Shaped info d [top, nd] := Shaped.emu htop hnd
   unfold actMemory
   simp only
-  cases h1 : MemView.newMemoryView ((paramsAt false info bs rx d).eops.mem e.emu key) with
+  cases h1 : MemView.newMemoryView ((paramsAt info bs rx d).eops.mem e.emu key) with
   | none => trivial
   | some v =>
     simp only
     cases h2 : addMode ⟨[top, nd]⟩ (b "memview(" ++ key ++ b ")")
-        (.mem ((paramsAt false info bs rx d).eops.mem e.emu key) v) with
+        (.mem ((paramsAt info bs rx d).eops.mem e.emu key) v) with
     | none => exact hsh
     | some ui' =>
       obtain ⟨cm, hst⟩ := addMode_stack _ _ _ ui' h2
@@ -189,7 +189,7 @@ theorem actMemory_shaped (info : Info) {bs : List BytesMem.Block} (rx : Str → 
       exact Shaped.mem ⟨_, _, rfl⟩ htop hnd
 
 theorem regStore_code (bs : List BytesMem.Block) (cv : Emulator.CodeView) (e : ESt) (k c : Str) :
-    ((emuOps false bs cv).regStore e k c).code = e.code := by
+    ((emuOps bs cv).regStore e k c).code = e.code := by
   show (match Overlay.assocGet (strOf k) e.st.regs with
     | some x => ({ e with st := { e.st with regs := e.st.regs.store (strOf k) (.const c) (x.width % 256) } } : ESt)
     | none => e).code = e.code
@@ -199,9 +199,9 @@ theorem actRegmod_shaped (info : Info) {bs : List BytesMem.Block} (rx : Str → 
     (d : Deps.Code) (top nd : NamedMode ESt) (e : EmuMode ESt) (hm : top.mode = .emu e)
     (hv : e.view.code = listingOf info d) (hc : e.emu.code = codeViewOf d) (hnd : DisOK info d nd)
     (key : Str) (inp : Input) :
-    ActShaped info d d [top, nd] (actRegmod (paramsAt false info bs rx d) top [nd] e key inp) := by
+    ActShaped info d d [top, nd] (actRegmod (paramsAt info bs rx d) top [nd] e key inp) := by
   unfold actRegmod
-  cases h1 : (paramsAt false info bs rx d).eops.regWidth e.emu key with
+  cases h1 : (paramsAt info bs rx d).eops.regWidth e.emu key with
   | none => exact Shaped.emu ⟨e, hm, hv, hc⟩ hnd
   | some w =>
     simp only
@@ -245,12 +245,12 @@ theorem runAct_shaped_dis (info : Info) {bs : List BytesMem.Block} (rx : Str →
     {d : Deps.Code} (hd : CInv d) (name : Str) (cm : CmdMap) (st : Listing.St) (hinv : LInv st)
     (hcode : st.code = listingOf info d) (act : Act) (args : List ArgVal) (inp : Input) :
     ActShaped info d (actDeps d ⟨name, .dis st, cm⟩ act args) [⟨name, .dis st, cm⟩]
-      (runAct (paramsAt false info bs rx d) ⟨name, .dis st, cm⟩ [] act args inp) := by
+      (runAct (paramsAt info bs rx d) ⟨name, .dis st, cm⟩ [] act args inp) := by
   have hsh : Shaped info d [(⟨name, .dis st, cm⟩ : NamedMode ESt)] := Shaped.dis ⟨st, rfl, hcode⟩
   have hcmd := fun (c : Listing.Cmd) (hv : ValidCmd st.lines.lines.length c) =>
     dis_cmd_shaped info (bs := bs) rx hd ⟨name, .dis st, cm⟩ st hinv hcode inp c hv
   have hnav : ∀ (c : Listing.Cmd) (r : Option (Listing.Status × Listing.St)),
-      Listing.step (paramsAt false info bs rx d).cops st c = r → ValidCmd st.lines.lines.length c →
+      Listing.step (paramsAt info bs rx d).cops st c = r → ValidCmd st.lines.lines.length c →
       nextDeps d st c = d →
       ActShaped info d d [⟨name, .dis st, cm⟩] (disAnswer ⟨name, .dis st, cm⟩ [] inp r) := by
     intro c r hr hv hn
@@ -284,7 +284,7 @@ theorem runAct_shaped_dis (info : Info) {bs : List BytesMem.Block} (rx : Str →
     split
     · next st' n heq =>
       cases heq
-      generalize hr : Listing.step (paramsAt false info bs rx d).cops st (Listing.Cmd.down n) = r
+      generalize hr : Listing.step (paramsAt info bs rx d).cops st (Listing.Cmd.down n) = r
       exact hnav _ r hr trivial rfl
     · trivial
   case dUp =>
@@ -294,7 +294,7 @@ theorem runAct_shaped_dis (info : Info) {bs : List BytesMem.Block} (rx : Str →
     split
     · next st' n heq =>
       cases heq
-      generalize hr : Listing.step (paramsAt false info bs rx d).cops st (Listing.Cmd.up n) = r
+      generalize hr : Listing.step (paramsAt info bs rx d).cops st (Listing.Cmd.up n) = r
       exact hnav _ r hr trivial rfl
     · trivial
   case dBounds =>
@@ -304,7 +304,7 @@ theorem runAct_shaped_dis (info : Info) {bs : List BytesMem.Block} (rx : Str →
     split
     · next st' n heq =>
       cases heq
-      generalize hr : Listing.step (paramsAt false info bs rx d).cops st (Listing.Cmd.bounds n) = r
+      generalize hr : Listing.step (paramsAt info bs rx d).cops st (Listing.Cmd.bounds n) = r
       exact hnav _ r hr trivial rfl
     · trivial
   case dGoto =>
@@ -314,14 +314,14 @@ theorem runAct_shaped_dis (info : Info) {bs : List BytesMem.Block} (rx : Str →
     split
     · next st' n heq =>
       cases heq
-      generalize hr : Listing.step (paramsAt false info bs rx d).cops st (Listing.Cmd.goto n) = r
+      generalize hr : Listing.step (paramsAt info bs rx d).cops st (Listing.Cmd.goto n) = r
       exact hnav _ r hr trivial rfl
     · trivial
   case dEntry =>
     rw [actDeps_ne _ _ _ _ (by decide)]
     unfold runAct
     simp only
-    generalize hr : Listing.step (paramsAt false info bs rx d).cops st Listing.Cmd.entrypoint = r
+    generalize hr : Listing.step (paramsAt info bs rx d).cops st Listing.Cmd.entrypoint = r
     exact hnav _ r hr trivial rfl
   case dFind =>
     rw [actDeps_ne _ _ _ _ (by decide)]
@@ -330,11 +330,11 @@ theorem runAct_shaped_dis (info : Info) {bs : List BytesMem.Block} (rx : Str →
     split
     · next st' r heq =>
       cases heq
-      generalize hr : Listing.step (paramsAt false info bs rx d).cops st (Listing.Cmd.find _) = res
+      generalize hr : Listing.step (paramsAt info bs rx d).cops st (Listing.Cmd.find _) = res
       exact hnav _ res hr (validFind rx r st) rfl
     · next st' r o heq =>
       cases heq
-      generalize hr : Listing.step (paramsAt false info bs rx d).cops st (Listing.Cmd.find _) = res
+      generalize hr : Listing.step (paramsAt info bs rx d).cops st (Listing.Cmd.find _) = res
       exact hnav _ res hr (validFind rx _ st) rfl
     · trivial
   case dAllLines =>
@@ -358,7 +358,7 @@ theorem runAct_shaped_emu (info : Info) {bs : List BytesMem.Block} (rx : Str →
     (hv : e.view.code = listingOf info d) (hc : e.emu.code = codeViewOf d) (hnd : DisOK info d nd)
     (act : Act) (args : List ArgVal) (inp : Input) :
     ActShaped info d d [⟨name, .emu e, cm⟩, nd]
-      (runAct (paramsAt false info bs rx d) ⟨name, .emu e, cm⟩ [nd] act args inp) := by
+      (runAct (paramsAt info bs rx d) ⟨name, .emu e, cm⟩ [nd] act args inp) := by
   have htop : EmuOK info d (⟨name, .emu e, cm⟩ : NamedMode ESt) := ⟨e, rfl, hv, hc⟩
   have hsh : Shaped info d [(⟨name, .emu e, cm⟩ : NamedMode ESt), nd] := Shaped.emu htop hnd
   cases act
@@ -404,7 +404,7 @@ theorem runAct_shaped_mem (info : Info) {bs : List BytesMem.Block} (rx : Str →
     (ne nd : NamedMode ESt) (hne : EmuOK info d ne) (hnd : DisOK info d nd)
     (act : Act) (args : List ArgVal) (inp : Input) :
     ActShaped info d d [⟨name, .mem m v, cm⟩, ne, nd]
-      (runAct (paramsAt false info bs rx d) ⟨name, .mem m v, cm⟩ [ne, nd] act args inp) := by
+      (runAct (paramsAt info bs rx d) ⟨name, .mem m v, cm⟩ [ne, nd] act args inp) := by
   have htop : MemModeOK (⟨name, .mem m v, cm⟩ : NamedMode ESt) := ⟨m, v, rfl⟩
   have hsh : Shaped info d [(⟨name, .mem m v, cm⟩ : NamedMode ESt), ne, nd] := Shaped.mem htop hne hnd
   cases act
@@ -450,7 +450,7 @@ theorem runAct_shaped (info : Info) {bs : List BytesMem.Block} (rx : Str → Opt
     (hui : UIInv EGood ⟨top :: below⟩) (hs : Shaped info d (top :: below)) (act : Act) (args : List ArgVal)
     (inp : Input) :
     ActShaped info d (actDeps d top act args) (top :: below)
-      (runAct (paramsAt false info bs rx d) top below act args inp) := by
+      (runAct (paramsAt info bs rx d) top below act args inp) := by
   have hmi := (uiinv_cons hui).1.2
   cases hs with
   | dis hdis =>
@@ -502,7 +502,7 @@ real code advanced by `uiNextDeps` -/
 theorem uiStep_shaped (info : Info) {bs : List BytesMem.Block} (rx : Str → Option (String → Bool))
     {d : Deps.Code} (hd : CInv d) (ui : UI ESt) (hui : UIInv EGood ui) (hs : Shaped info d ui.stack) (inp : Input)
     (a : Answer) (ui' : UI ESt) (rest : Input)
-    (h : uiStep (paramsAt false info bs rx d) ui inp = .cont a ui' rest) :
+    (h : uiStep (paramsAt info bs rx d) ui inp = .cont a ui' rest) :
     Shaped info (uiNextDeps d ui inp) ui'.stack := by
   unfold uiStep uiStepWith at h
   cases inp with
@@ -549,7 +549,7 @@ theorem uiStep_shaped (info : Info) {bs : List BytesMem.Block} (rx : Str → Opt
             simp only [hp']
           rw [e]
           have hact := runAct_shaped info (bs := bs) rx hd top below hui' hs cmd.act args rest0
-          cases hr : runAct (paramsAt false info bs rx d) top below cmd.act args rest0 with
+          cases hr : runAct (paramsAt info bs rx d) top below cmd.act args rest0 with
           | panic => rw [hr] at h; cases h
           | hang => rw [hr] at h; cases h
           | ok ui1 rest1 =>
@@ -592,7 +592,7 @@ inductive RReach (info : Info) (bs : List BytesMem.Block) (rx : Str → Option (
     RUI → Prop where
   | init {ui : UI ESt} : UI.init (listingOf info d0) = some ui → RReach info bs rx d0 ⟨d0, ui⟩
   | step {r : RUI} {inp rest : Input} {a : Answer} {ui' : UI ESt} : RReach info bs rx d0 r →
-      uiStep (paramsAt false info bs rx r.deps) r.ui inp = .cont a ui' rest →
+      uiStep (paramsAt info bs rx r.deps) r.ui inp = .cont a ui' rest →
       RReach info bs rx d0 ⟨uiNextDeps r.deps r.ui inp, ui'⟩
 
 /-- in every state of every session: C07's invariant on the real code, the invariant of the UI (C22), and the
